@@ -112,7 +112,7 @@ def _tlc_models(ctx: Ctx) -> None:
     require_actions(r, ["Start", "Adjust", "L1Step", "L1Done", "Reseed", "L2Step", "L2Done"], "MC_Gkdi_live")
     ctx.add_tlc(r, "step machine Fan=4: all envelopes x all requests, safety + <>Terminal under WF")
     cfg = "MC_Gkdi_full.cfg" if ctx.thorough else "MC_Gkdi_quick.cfg"
-    r = run_tlc("MC_Gkdi", cfg, rundir=ctx.rundir, timeout=3000, heap=ctx.pick("4g", "16g"))
+    r = run_tlc("MC_Gkdi", cfg, rundir=ctx.rundir, timeout=7000, heap=ctx.pick("4g", "16g"))
     require_ok(r, f"derivation step machine Fan=32 ({cfg})")
     ctx.add_tlc(r, f"step machine Fan=32 {cfg}: ResultIsRequested, RejectIffNotCovered, BoundedKdf, CoverIsDerivable, StepsAreEdges")
 
